@@ -162,6 +162,19 @@ def run_case(kind, q):
                     msgs.append(f"process_frame_fast(upsample={us}, {q['b']} buffers for {len(starts)} starts): start "
                                 f"{starts[i].tolist()} refined {ref[i].tolist()}, the first start alone gives {one.tolist()} "
                                 f"(true {true.tolist()})")
+            # the documented boolean form: upsample=True is the factor 20, in both pipelines -- where the factor 20 meets the
+            # bound, True meets it, too
+            for nm, fn in (("process_frame_fast", impl.run_fast), ("process_frame_full", impl.run_full)):
+                try:
+                    r20 = np.asarray(fn(fpos, pattern, starts[:2], upsample=20)[1], dtype=np.float64)
+                    rt = np.asarray(fn(fpos, pattern, starts[:2], upsample=True)[1], dtype=np.float64)
+                except Exception as e:
+                    msgs.append(f"{nm}(upsample=True) raised {type(e).__name__}: {e}")
+                    continue
+                e20, et = np.abs(r20 - true).max(), np.abs(rt - true).max()
+                if e20 <= 1 / 20 + 0.03 < et:
+                    msgs.append(f"{nm}(upsample=True) shape {shape} shift {shift.tolist()}: refined {rt[0].tolist()}, true "
+                                f"{true.tolist()}, error {et:.3f} > 1/20 + 0.03; the factor 20 gives {r20[0].tolist()}")
     return msgs[:6]
 
 
